@@ -8,7 +8,8 @@ import progen
 
 THEOREMS = ["Flat.node_bound", "Flat.node_bound_nt", "Flat.table_checked", "Flat.pinned_capacity_too_small",
             "Flat.cursor_bound", "Flat.cursor_checked", "Flat.runProg_sound", "Flat.runNT_sound", "Flat.runProg_cursor",
-            "Flat.runNT_cursor"]
+            "Flat.runNT_cursor", "Flat.parse_total", "Flat.nt_total", "Flat.term_checked", "Flat.walk_sound",
+            "Flat.runNT_total"]
 
 CODE = {"unexpectedToken": 300, "semicolonAfterIdentifier": 301, "missingConstantType": 343,
         "missingParameterType": 344, "missingMemberType": 346, "maxDepth": 390}
